@@ -70,7 +70,7 @@ class C18(Check):
     required_classes = ['media/documented-bare', 'media/documented-params', 'media/case-variant', 'media/near-miss', 'media/unrelated', 'media/missing',
                         'body/non-utf8', 'body/nothing-returned', 'body/batch', 'body/not-json', 'status/non-default', 'endpoint/prefix',
                         'integration/aiohttp', 'integration/flask', 'integration/werkzeug', 'codec/custom', 'codec/custom/took-effect',
-                        'endpoint/prefix-registered-with-trailing-slash', 'endpoint/on-subapp-or-blueprint', 'status/function-consulting-a-table', 'endpoint/mounted-json-rpc-application',
+                        'endpoint/prefix-registered-with-trailing-slash', 'endpoint/prefix-registered-without-leading-slash', 'endpoint/on-subapp-or-blueprint', 'status/function-consulting-a-table', 'endpoint/mounted-json-rpc-application',
                         'config/default-content-type', 'config/default-content-type/posted']
 
     def strategy(self, tier: str):
@@ -93,7 +93,7 @@ class C18(Check):
                                                       'prefix_style': ps, 'nested': nested_for(ps, codec, s, e, beh)},
             s_media, s_body, st.sampled_from(['default', 'default'] + [k for k in httpapps.STATUS_FUNCS if k != 'default']),
             st.sampled_from(['base', 'base', 'prefix']), stdreg.behaviours(), st.sampled_from(['/api', '/api/v1', '/rpc']),
-            st.sampled_from(['default', 'default', 'custom']), st.sampled_from(['plain', 'trailing-slash']),
+            st.sampled_from(['default', 'default', 'custom']), st.sampled_from(['plain', 'plain', 'trailing-slash', 'no-leading-slash']),
             st.sampled_from([None, None, None, None] + CONFIGURED_DEFAULTS), st.sampled_from([[500, 200], [503, 202], [422, 200], [500, 203], [200, 200]]),
         )
 
@@ -114,6 +114,7 @@ class C18(Check):
             {**base, 'media': 'application/json', 'codec': 'custom', 'endpoint': 'prefix',
              'body': t([call, {'jsonrpc': '2.0', 'id': 2, 'method': 'echo', 'params': {'a': 0.5}}])},
             {**base, 'media': 'application/json', 'endpoint': 'prefix', 'prefix_style': 'trailing-slash', 'body': t(call)},
+            {**base, 'media': 'application/json', 'endpoint': 'prefix', 'prefix_style': 'no-leading-slash', 'body': t(call)},
             {**base, 'media': 'application/json', 'endpoint': 'prefix', 'nested': True, 'body': t([call, {'jsonrpc': '2.0', 'id': 2, 'method': 'where_sub'}])},
             {**base, 'media': 'application/json', 'endpoint': 'base', 'nested': True, 'body': t(call)},
             {**base, 'media': 'application/json', 'endpoint': 'prefix', 'nested': 'app', 'status': 'any-error-500', 'body': t([call, {'jsonrpc': '2.0', 'id': 2, 'method': 'nope'}])},
@@ -280,7 +281,7 @@ class C18(Check):
         if spec['endpoint'] == 'prefix':
             classes.append('endpoint/prefix')
             if spec.get('prefix_style', 'plain') != 'plain':
-                classes.append('endpoint/prefix-registered-with-trailing-slash')
+                classes.append('endpoint/prefix-registered-with-trailing-slash' if spec['prefix_style'] == 'trailing-slash' else 'endpoint/prefix-registered-without-leading-slash')
             if spec.get('nested') == 'app':
                 classes.append('endpoint/mounted-json-rpc-application')
             if spec.get('nested'):
